@@ -1133,7 +1133,8 @@ class Context:
 
             # Create a function expression to parse
             param_str = ", ".join(params)
-            source = f"(function({param_str}) {{ {body} }})"
+            # (the body on lines of its own: it may end in a line comment)
+            source = f"(function({param_str}\n) {{\n{body}\n}})"
 
             # Parse and compile
             try:
